@@ -801,6 +801,31 @@ func (sc *scn) compare(k groupKey, g *group, ev *retx) {
 			map[bool]string{true: " in RFC 4588 form (OSN prefix + payload without padding)", false: ""}[in.rtx], pd, where,
 			sc.describeGroup(k, g), sc.tail(10))
 	}
+	if sc.concurrent {
+		// evidence: did this downstream call really overlap application sends on the stream?
+		in.mu.Lock()
+		i := sort.Search(len(in.sends), func(i int) bool { return in.sends[i].a1 > ev.e0 })
+		var during int64
+		overlap := false
+		for ; i < len(in.sends); i++ {
+			s := in.sends[i]
+			if s.a0 < ev.e1 {
+				overlap = true
+				if s.a0 > ev.e0 && s.a1 < ev.e1 {
+					during++
+				}
+			} else if s.a1-ev.e1 > 64 {
+				break
+			}
+		}
+		in.mu.Unlock()
+		if overlap {
+			sc.ev.overlapSend++
+		}
+		if during > sc.ev.maxDuring {
+			sc.ev.maxDuring = during
+		}
+	}
 	// ---- the bytes must still be the same when the downstream Write returns
 	sc.ev.exitCompared++
 	if ev.held {
